@@ -1,6 +1,7 @@
 //! unit: u16e
 //! properties: C16
 //! note: what the router believes about one candidate hop: CandidateRouteHop::{fees, htlc_minimum_msat, cltv_expiry_delta, effective_capacity} return exactly the policy the hop's own source advertises (gossip direction, route hint, blinded pay-info) and nothing for the payer's own first hop
+//! trusted: R15 (deep slices): Route::debug_assert_route_meets_params: the three refusing conditions (fee cap, total CLTV limit, superfluous MPP part), verbatim as functions of the values compared; the error reporting (format!, debug_assert!(false), log) and the non-refusing diagnostics are dropped
 //! trusted: R5: CandidateRouteHop and its five candidate structs are skeletons with the fields these four accessors read (the real ones hold references into the graph, the hints and the first-hop list; references are owned values here); DirectedChannelInfo::direction() / effective_capacity() external_body accessors (effective_capacity is proved in unit u16d); RoutingFees, EffectiveCapacity extracted
 //! trusted: assume_specification for core::cmp::max / core::cmp::min (std definitions): present in every unit so that a change that introduces them is verified instead of being rejected by the tool
 //! trusted: R15 (deep slice): add_random_cltv_offset: the statements that cap the shadow offset (the function-local constant, the remaining-budget computation, the two `min`s) verbatim as a function of the offset found by the random walk, the payment parameters and the path's total delta (PathStub::total_cltv_expiry_delta is its total); the random walk and the application to the last hop / blinded tail are dropped and not claimed
@@ -127,6 +128,49 @@ impl PathStub { #[verifier::external_body] pub fn total_cltv_expiry_delta(&self)
 //@with
     payment_params.max_total_cltv_expiry_delta;
 //@end
+}
+// ---- Route::debug_assert_route_meets_params: the gate every route (from any Router) passes before it is paid over ----
+pub mod route_gate {
+use vstd::prelude::*;
+pub struct PaymentParams { pub max_total_cltv_expiry_delta: u32, pub max_path_length: u8 }
+pub struct RouteParams { pub payment_params: PaymentParams, pub final_value_msat: u64, pub max_total_routing_fee_msat: Option<u64> }
+pub struct RouteStub { pub total_amount: u64 }
+impl RouteStub { #[verifier::external_body] pub fn get_total_amount(&self) -> (r: u64) ensures r == self.total_amount { unimplemented!() } }
+//@extract lightning/src/routing/router.rs :: impl Route :: fn debug_assert_route_meets_params
+//@slice R15
+    let total_fee = self.get_total_fees(); if $c:cond { let err = $e:seq;
+//@with
+    fn fee_cap_is_exceeded(total_fee: u64, max_total_fee: u64) -> bool { $c }
+//@ret r
+//@ensures P C16 a-route-whose-total-fees-exceed-the-callers-cap-is-refused-before-it-is-used
+    r == (total_fee > max_total_fee),
+//@end
+//@extract lightning/src/routing/router.rs :: impl Route :: fn debug_assert_route_meets_params
+//@slice R15
+    let total_cltv_delta = path.total_cltv_expiry_delta(); if $c:cond { let err = $e:seq;
+//@with
+    fn cltv_limit_is_exceeded(total_cltv_delta: u32, route_params: &RouteParams) -> bool { $c }
+//@ret r
+//@ensures P C16 a-route-with-a-path-over-the-callers-total-cltv-limit-is-refused-before-it-is-used
+    r == (total_cltv_delta > route_params.payment_params.max_total_cltv_expiry_delta),
+//@end
+impl RouteStub {
+//@extract lightning/src/routing/router.rs :: impl Route :: fn debug_assert_route_meets_params
+//@slice R15
+    let min_mpp_part = $m:seq; if $c:cond { let err = $e:seq;
+//@with
+    fn has_a_part_it_does_not_need(&self, min_mpp_part: u64, route_params: &RouteParams) -> bool { $c }
+//@ret r
+//@requires
+    min_mpp_part <= self.total_amount,
+//@ensures P C16 a-route-that-still-covers-the-amount-without-its-smallest-part-is-refused-no-more-parts-than-needed
+    r == (self.total_amount - min_mpp_part >= route_params.final_value_msat),
+//@mutant superfluous_part_tolerated_when_it_exactly_covers
+    if self.get_total_amount() - min_mpp_part >= route_params.final_value_msat {
+//@with
+    if self.get_total_amount() - min_mpp_part > route_params.final_value_msat {
+//@end
+}
 }
 }
 fn main() {}
